@@ -409,6 +409,13 @@ class WirePart(Part):
     def __init__(self, fam):
         self.name = fam
         self.fam = fam
+        self.stats = {}
+        self._rep = None          # set by the spec's extra_stages: measured figures go to evidence coverage["wire"][family]
+
+    def count(self, key, n=1):
+        self.stats[key] = self.stats.get(key, 0) + n
+        if self._rep is not None:
+            self._rep.cov.setdefault("wire", {})[self.name] = dict(self.stats)
 
     # the model never consumes the op lines: it decodes what the implementation wrote
     def run_pair(self, exe, hist, model_ok):
